@@ -260,6 +260,30 @@ theorem evalAreas_above (u : K) : ∀ (L : List Nat) (first : Bool),
 
 end eval
 
+/-- in an increasing list the last element bounds every element -/
+theorem le_getLast_of_sorted : ∀ (L : List Nat), L.Pairwise (· < ·) → ∀ m, L.getLast? = some m → ∀ a ∈ L, a ≤ m := by
+  intro L
+  induction L with
+  | nil => intro _ m h; simp at h
+  | cons b M ihM =>
+    intro hp m hm a ha
+    cases M with
+    | nil =>
+      simp at hm ha
+      omega
+    | cons c M' =>
+      have hm' : (c :: M').getLast? = some m := by simpa [List.getLast?_cons_cons] using hm
+      have hpM := (List.pairwise_cons.mp hp).2
+      rcases List.mem_cons.mp ha with rfl | ha'
+      · have hc := ihM hpM m hm' c (by simp)
+        have := (List.pairwise_cons.mp hp).1 c (by simp)
+        omega
+      · exact ihM hpM m hm' a ha'
+
+theorem getLast?_mem : ∀ (L : List Nat) (m : Nat), L.getLast? = some m → m ∈ L := by
+  intro L m h
+  exact List.mem_of_getLast? h
+
 /-! ## the basis functions -/
 
 section basis
@@ -377,24 +401,7 @@ theorem basis_zero_above (j : Nat) (t u : K) (hb : isBelowX xs n d j t = true) (
   unfold isBelowX at hb
   -- the last area bounds every area
   have hsorted := areas_sorted n d j
-  have hlast : ∀ (L : List Nat), L.Pairwise (· < ·) → ∀ m, L.getLast? = some m → ∀ a ∈ L, a ≤ m := by
-    intro L
-    induction L with
-    | nil => intro _ m h; simp at h
-    | cons b M ihM =>
-      intro hp m hm a ha
-      cases M with
-      | nil =>
-        simp at hm ha
-        omega
-      | cons c M' =>
-        have hm' : (c :: M').getLast? = some m := by simpa [List.getLast?_cons_cons] using hm
-        have hpM := (List.pairwise_cons.mp hp).2
-        rcases List.mem_cons.mp ha with rfl | ha'
-        · have hc := ihM hpM m hm' c (by simp)
-          have := (List.pairwise_cons.mp hp).1 c (by simp)
-          omega
-        · exact ihM hpM m hm' a ha'
+  have hlast := le_getLast_of_sorted
   cases hl : (areas n d j).getLast? with
   | none =>
     have : areas n d j = [] := List.getLast?_eq_none_iff.mp hl
@@ -406,6 +413,43 @@ theorem basis_zero_above (j : Nat) (t u : K) (hb : isBelowX xs n d j t = true) (
     have him := hlast _ hsorted m hl i hi
     have : xs (i + 1) ≤ xs (m + 1) := hxs.monotone (by omega)
     exact lt_of_le_of_lt (le_trans this hle) hu
+
+/-- … and at `t` itself, unless `t` is the last grid node -/
+theorem basis_zero_of_below (j : Nat) (t : K) (hb : isBelowX xs n d j t = true) (ht : t < xs (n - 1)) (hj : j < n) :
+    basis xs n d j t = 0 := by
+  cases hl : (areas n d j).getLast? with
+  | none =>
+    have : areas n d j = [] := List.getLast?_eq_none_iff.mp hl
+    unfold basis
+    rw [this]
+    simp [evalAreas]
+  | some m =>
+    have hb' := hb
+    unfold isBelowX at hb'
+    rw [hl] at hb'
+    have hle : xs (m + 1) ≤ t := by simpa using hb'
+    have hm_mem : m ∈ areas n d j := getLast?_mem _ _ hl
+    have hm1 : m + 1 < n := ((mem_areas n d j m).mp hm_mem).1
+    rcases lt_or_eq_of_le hle with hlt | heq
+    · have hbm : isBelowX xs n d j (xs (m + 1)) = true := by
+        unfold isBelowX
+        rw [hl]
+        simp
+      exact basis_zero_above xs hxs n d hd hn j (xs (m + 1)) t hbm hlt
+    · rw [← heq, basis_at_node xs hxs n d hd hn j (m + 1) hj hm1]
+      have : j ≠ m + 1 := by
+        intro hjm
+        have hlt' : xs (m + 1) < xs (n - 1) := heq ▸ ht
+        have hm2 : m + 1 < n - 1 := hxs.lt_iff_lt.mp hlt'
+        have hspec := kminOf_spec n d (m + 1) hd hn (by omega)
+        have hin : m + 1 ∈ areas n d j := by
+          rw [mem_areas]
+          refine ⟨by omega, ?_⟩
+          rw [inBlock_iff, hjm]
+          omega
+        have := le_getLast_of_sorted _ (areas_sorted n d j) m hl (m + 1) hin
+        omega
+      simp [this]
 
 /-- **reproduction of polynomials**: inside the grid the interpolant of a polynomial of degree
 at most the interpolation degree *is* the polynomial -/
